@@ -1,12 +1,24 @@
 // Package c02 checks property C02: snapshot reads of a kv family are stable and the files a
 // snapshot / unfinished writer needs stay alive under concurrent flushes, compactions,
 // obsolete-file cleanup and reader-cache cleanup.
+//
+// Readers: take / read / close snapshots at operation granularity, re-entrantly at the listDir/removeDir
+// seams of the obsolete-file pass, and at the open/mmap seams of a reader-cache miss (openHook: a second
+// first reader of the very file being opened, reads/closes of other snapshots, TTL + cache cleanup) whenever
+// the implementation does not hold the cache lock there. Reader profiles per history: mixed (Load, FindReaders+Get,
+// full scan) or point readers only (no Load, which never gives its readers back and so pins files in the
+// cache); 2/3/5 readers open at a time; the invariant reader after each step reads in full, by point reads or
+// not at all (so that freshly written files stay cold for the readers of the history); at the end the readers
+// finish one by one in a drawn order with a TTL + cache cleanup after each.
+// Mappings are identified by the open file behind them (table.VerifReaderFile), so closing a duplicate
+// mapping nobody got is not taken for unmapping a reader in use.
 package c02
 
 import (
 	"fmt"
 	"os"
 	"path/filepath"
+	"runtime/debug"
 	"sort"
 	"strings"
 	"sync"
@@ -33,44 +45,75 @@ type heldSnap struct {
 	fam       string
 	snap      version.Snapshot
 	content   kvsim.Content
-	files     map[int64]bool  // table files of the snapshot's version
-	readers   map[string]bool // table file names for which the snapshot handed out a reader
-	compacts  int             // compaction commits seen while held
-	cleanups  int             // obsolete-file passes / cache cleanups seen while held
+	files     map[int64]bool      // table files of the snapshot's version
+	readers   map[*os.File]string // mappings (identified by the open file behind them) of the readers the snapshot handed out => table file name
+	compacts  int                 // compaction commits seen while held
+	cleanups  int                 // obsolete-file passes / cache cleanups seen while held
 	flushes   int
 	reads     int
 	takenAtOp int
 }
 
 type env struct {
-	t         *rapid.T
-	dir       string
-	storePath string
-	opt       kv.StoreOption
-	famOpt    kv.FamilyOption
-	store     kv.Store
-	famNames  []string
-	fams      map[string]kv.Family
-	model     map[string]kvsim.Content
-	held      []*heldSnap
-	snapSeq   int
-	atom      uint32
-	ops       []string
-	inJob     bool // a compaction / cleanup is running (hooks may run nested reader operations)
-	nestBudg  int
+	t           *rapid.T
+	dir         string
+	storePath   string
+	opt         kv.StoreOption
+	famOpt      kv.FamilyOption
+	store       kv.Store
+	famNames    []string
+	fams        map[string]kv.Family
+	model       map[string]kvsim.Content
+	held        []*heldSnap
+	snapSeq     int
+	atom        uint32
+	ops         []string
+	inJob       bool // a compaction / cleanup is running (hooks may run nested reader operations)
+	nestBudg    int
 	inWriter    bool // a flusher is adding data / committing
 	writerNest  int
 	jobNest     int
 	inNestedJob bool
 	jobFam      string
 	flushNest   int
-	classes   map[string]int
-	ntSnaps   int
-	pendingFl kv.Flusher // an unfinished writer (flusher with data added but not yet committed)
-	pendingFm string
-	pendingKs []uint32
-	pendingAt uint32
-	violation string
+	classes     map[string]int
+	ntSnaps     int
+	reading     *heldSnap     // the held snapshot whose read call is on the stack (nil: a transient reader such as checkCurrent / a compaction)
+	inOpenSeam  bool          // nested operations are running at the open/mmap seam of a cold table file
+	openSpent   map[int64]int // table file => open-seam visits with nested operations during the current top-level operation (at most 1 per file)
+	opening     bool          // the store is being (re)opened
+	hint        []uint32      // keys the next point read probes first (keys of the table file being opened)
+	raced       int           // readers nested into the cold open of the same file (current history)
+	pointOnly   bool          // reader profile of the history: every reader looks keys up through FindReaders+Get (no Load, which never gives its readers back)
+	maxHeld     int           // readers (snapshots) open at the same time
+	seamSeed    uint64        // drawn once per history: decisions at the open seams are a function of it and of the seam
+	seamRng     *uint64       // != nil while operations nested into an open seam run: their choices come from it
+	seamVisits  map[string]int
+	pendingFl   kv.Flusher // an unfinished writer (flusher with data added but not yet committed)
+	pendingFm   string
+	pendingKs   []uint32
+	pendingAt   uint32
+	violation   string
+}
+
+// intn is the source of every choice of the reader operations. At top level and inside jobs it is a
+// rapid draw. Inside an open seam it is a generator seeded from (the history's rapid-drawn seamSeed, table
+// file, seam, number of the visit): in which order the files of one level are opened is decided by a
+// map iteration inside lindb (level.getFiles), so draws made there would shift the rapid bit stream from
+// run to run; this way the choices at a seam do not depend on that order.
+func (e *env) intn(label string, lo, hi int) int {
+	if e.seamRng == nil {
+		return rapid.IntRange(lo, hi).Draw(e.t, label)
+	}
+	return lo + int(splitmix(e.seamRng)%uint64(hi-lo+1))
+}
+
+func splitmix(x *uint64) uint64 {
+	*x += 0x9e3779b97f4a7c15
+	z := *x
+	z = (z ^ (z >> 30)) * 0xbf58476d1ce4e5b9
+	z = (z ^ (z >> 27)) * 0x94d049bb133111eb
+	return z ^ (z >> 31)
 }
 
 func (e *env) logf(format string, args ...any) {
@@ -208,14 +251,118 @@ func (e *env) manifestHook(op, _ string, before bool) {
 	e.classes["cleanup-nested-before-commit"]++
 }
 
-func (e *env) unmapHook(path string) {
+// unmapHook: a mapping is identified by the open file behind it (two mappings of the same table file
+// are different mappings: closing a duplicate nobody got is fine).
+func (e *env) unmapHook(path string, f *os.File) {
 	name := filepath.Base(path)
 	fam := filepath.Base(filepath.Dir(path))
 	for _, h := range e.held {
-		if h.fam == fam && h.readers[name] {
+		if _, ok := h.readers[f]; ok && h.fam == fam {
 			e.violation = fmt.Sprintf("table %s of family %s is unmapped while open snapshot #%d holds a reader of it", name, fam, h.id)
 		}
 	}
+}
+
+// openHook runs at the seams of a reader-cache miss: before/after the open and before/after the mmap
+// of a cold table file (reader path: Snapshot.FindReaders/Load/GetReader -> Cache.GetReader; also the
+// input files of a compaction). If the implementation holds the cache lock there, nothing that needs
+// the reader cache can run at this point (the implementation serialises it; counted). If it does not,
+// other readers and the periodic cache cleanup may run right here - in particular a second reader
+// that misses the cache for the very same file: take a snapshot of that family and look up a key of
+// the file being opened; read / close other held snapshots; let the TTL pass and run the cache cleanup.
+func (e *env) openHook(op, path string, before bool) {
+	if e.violation != "" || e.inOpenSeam || e.opening || e.store == nil {
+		return
+	}
+	num, ok := fileNumberOf(path)
+	if !ok {
+		return
+	}
+	fam := filepath.Base(filepath.Dir(path))
+	if _, ok := e.fams[fam]; !ok {
+		return
+	}
+	if op == "tableOpen" && before {
+		e.classes["cold-open"]++
+		if e.reading != nil {
+			e.classes["cold-open-by-held-snapshot"]++
+		}
+	}
+	if kv.VerifCacheBusy(e.store) {
+		e.classes["cold-open-seam-serialised-by-cache-lock"]++
+		return
+	}
+	e.classes["cold-open-seam-outside-cache-lock"]++
+	where := fmt.Sprintf("nested@%s-%s(%s/%s)", map[bool]string{true: "before", false: "after"}[before], op, fam, filepath.Base(path))
+	e.seamVisits[where]++
+	rng := e.seamSeed
+	for _, c := range []byte(fmt.Sprintf("%s#%d", where, e.seamVisits[where])) {
+		rng = (rng ^ uint64(c)) * 0x100000001b3
+	}
+	e.seamRng = &rng
+	e.inOpenSeam = true
+	defer func() { e.inOpenSeam, e.seamRng = false, nil }()
+	n := e.intn("openSeamOps", 0, 2)
+	if n == 0 || e.openSpent[num] >= 1 {
+		return
+	}
+	e.openSpent[num]++
+	others := func() []int {
+		var idx []int
+		for i, h := range e.held {
+			if h != e.reading {
+				idx = append(idx, i)
+			}
+		}
+		return idx
+	}
+	for i := 0; i < n && e.violation == ""; i++ {
+		switch kind := e.intn("openSeamKind", 0, 6); {
+		case kind <= 2: // another first reader of the same (cold) file
+			if len(e.held) >= e.maxHeld+1 {
+				continue
+			}
+			h := e.takeSnapshotOf(fam, where)
+			if !h.files[num] {
+				// the file is not part of the current version (e.g. input of a running compaction that
+				// another job already replaced): an ordinary nested reader
+				e.readHeld(h, where)
+				e.classes["reader-nested-in-cold-open"]++
+				continue
+			}
+			// keys of the file being opened, from the snapshot's own version
+			e.hint = nil
+			for _, fm := range h.snap.GetCurrent().GetAllFiles() {
+				if fm.GetFileNumber().Int64() == num {
+					e.hint = []uint32{fm.GetMinKey(), fm.GetMaxKey()}
+				}
+			}
+			e.readHeld(h, where+" same file")
+			e.hint = nil
+			e.raced++
+			e.classes["first-reader-nested-in-cold-open-of-same-file"]++
+		case kind == 3:
+			if o := others(); len(o) > 0 {
+				e.readHeld(e.held[o[e.intn("openSeamSnap", 0, len(o)-1)]], where)
+				e.classes["reader-nested-in-cold-open"]++
+			}
+		case kind == 4:
+			if o := others(); len(o) > 0 {
+				e.opCloseSnapshot(o[e.intn("openSeamSnap", 0, len(o)-1)], where)
+				e.classes["close-nested-in-cold-open"]++
+			}
+		default:
+			e.logf("  %s: cacheCleanup", where)
+			time.Sleep(2 * time.Millisecond)
+			kv.VerifCacheCleanup(e.store)
+			for _, h := range e.held {
+				h.cleanups++
+			}
+			e.classes["cache-cleanup-nested-in-cold-open"]++
+		}
+	}
+	// a violation seen by the monitors is reported when the interrupted operation has returned
+	// (no panic through the frames of the operation that sits at this seam)
 }
 
 // nested runs reader operations re-entrantly at a seam inside a compaction / cleanup job.
@@ -273,14 +420,15 @@ func (e *env) opFlush() {
 	e.inWriter, e.writerNest = true, 2
 	defer func() { e.inWriter = false }()
 	fl := e.fams[fam].NewFlusher()
+	// released on every path: rapid aborts a case (out of data while shrinking, Skip) by a panic that may
+	// start in a draw made by a hook below Add/Commit, and Store.Close waits for unreleased flushers
+	defer fl.Release()
 	for _, k := range keys {
 		if err := fl.Add(k, kvsim.Encode(map[uint32]bool{atom: true})); err != nil {
-			fl.Release()
 			e.fatalf("flush add: %v", err)
 		}
 	}
 	err := fl.Commit()
-	fl.Release()
 	if err != nil {
 		e.fatalf("flush commit: %v", err)
 	}
@@ -306,9 +454,13 @@ func (e *env) opBeginWriter() {
 	e.inWriter, e.writerNest = true, 2
 	defer func() { e.inWriter = false }()
 	fl := e.fams[fam].NewFlusher()
+	defer func() {
+		if e.pendingFl != fl {
+			fl.Release() // see opFlush
+		}
+	}()
 	for _, k := range keys {
 		if err := fl.Add(k, kvsim.Encode(map[uint32]bool{e.atom: true})); err != nil {
-			fl.Release()
 			e.fatalf("writer add: %v", err)
 		}
 	}
@@ -320,8 +472,10 @@ func (e *env) opFinishWriter() {
 		e.t.Skip("no open writer")
 	}
 	e.logf("finishWriter %s", e.pendingFm)
-	err := e.pendingFl.Commit()
-	e.pendingFl.Release()
+	fl := e.pendingFl
+	e.pendingFl = nil
+	defer fl.Release()
+	err := fl.Commit()
 	if err != nil {
 		e.fatalf("writer commit (its table must have survived every cleanup): %v", err)
 	}
@@ -334,11 +488,11 @@ func (e *env) opFinishWriter() {
 		}
 	}
 	e.classes["writer-finished-after-jobs"]++
-	e.pendingFl = nil
 }
 
 func (e *env) runJob(name string, fn func()) {
 	e.inJob, e.nestBudg, e.jobNest, e.flushNest = true, 4, 4, 1
+	e.openSpent = map[int64]int{}
 	fn()
 	e.inJob = false
 	if e.violation != "" {
@@ -391,18 +545,37 @@ func (e *env) opCacheCleanup() {
 }
 
 func (e *env) opTakeSnapshot(why string) {
-	if len(e.held) >= 5 {
+	if len(e.held) >= e.maxHeld {
 		return
 	}
-	fam := e.pickFamily()
+	e.takeSnapshotOf(e.pickFamily(), why)
+}
+
+func (e *env) takeSnapshotOf(fam, why string) *heldSnap {
 	snap := e.fams[fam].GetSnapshot()
 	e.snapSeq++
-	h := &heldSnap{id: e.snapSeq, fam: fam, snap: snap, content: e.model[fam].Clone(), files: map[int64]bool{}, readers: map[string]bool{}, takenAtOp: len(e.ops)}
+	h := &heldSnap{id: e.snapSeq, fam: fam, snap: snap, content: e.model[fam].Clone(), files: map[int64]bool{}, readers: map[*os.File]string{}, takenAtOp: len(e.ops)}
 	for _, fm := range snap.GetCurrent().GetAllFiles() {
 		h.files[fm.GetFileNumber().Int64()] = true
 	}
 	e.held = append(e.held, h)
 	e.logf("snapshot #%d of %s (%s) files=%v", h.id, fam, why, keysOfInt(h.files))
+	return h
+}
+
+// probe draws the j-th key of a point read; hinted keys (of a file being opened) come first.
+func (e *env) probe(j int) uint32 {
+	if j < len(e.hint) {
+		return e.hint[j]
+	}
+	return universe[e.intn("probe", 0, len(universe)-1)]
+}
+
+// noteReader records that the snapshot handed out this reader (the mapping must live until Close).
+func (e *env) noteReader(h *heldSnap, r table.Reader) {
+	if f := table.VerifReaderFile(r); f != nil {
+		h.readers[f] = r.FileName()
+	}
 }
 
 func keysOfInt(m map[int64]bool) []int64 {
@@ -414,33 +587,67 @@ func keysOfInt(m map[int64]bool) []int64 {
 	return out
 }
 
-func (e *env) opReadSnapshot(i int, why string) {
-	h := e.held[i]
+func (e *env) opReadSnapshot(i int, why string) { e.readHeld(e.held[i], why) }
+
+// violated tells whether a monitor noted a violation during the call that just returned. It is reported
+// at once by a top-level reader; a reader nested into a job / an open seam just stops (the operation it
+// interrupted reports when it has returned).
+func (e *env) violated() bool {
+	if e.violation == "" {
+		return false
+	}
+	if !e.inJob && !e.inOpenSeam {
+		e.fatalf("%s", e.violation)
+	}
+	return true
+}
+
+func (e *env) readHeld(h *heldSnap, why string) {
+	defer func(prev *heldSnap) { e.reading = prev }(e.reading)
+	e.reading = h
+	if !e.inOpenSeam && !e.inJob {
+		e.openSpent = map[int64]int{}
+	}
 	h.reads++
-	kind := rapid.IntRange(0, 2).Draw(e.t, "readKind")
-	e.logf("read snapshot #%d kind=%d (%s)", h.id, kind, why)
+	kind := e.intn("readKind", 0, 3)
+	if kind == 3 || len(e.hint) > 0 || e.pointOnly {
+		kind = 1 // point reads through FindReaders are the common reader (tsdb data files)
+	}
+	e.logf("read snapshot #%d kind=%d hint=%v (%s)", h.id, kind, e.hint, why)
 	switch kind {
 	case 0: // complete read, two ways (Load + scan of every file through GetReader)
 		got, err := kvsim.ReadSnapshot(h.snap, universe)
-		for f := range h.files {
-			h.readers[version.Table(table.FileNumber(f))] = true
+		if e.violated() {
+			return
 		}
 		if err != nil {
 			e.fatalf("snapshot #%d of %s (taken at op %d): %v", h.id, h.fam, h.takenAtOp, err)
+		}
+		for _, f := range keysOfInt(h.files) { // the scan got a reader of every file from the snapshot: learn which mappings
+			r, err := h.snap.GetReader(table.FileNumber(f))
+			if err != nil || r == nil {
+				e.fatalf("snapshot #%d of %s: GetReader(%d): %v", h.id, h.fam, f, err)
+			}
+			e.noteReader(h, r)
 		}
 		if !h.content.Equal(got) {
 			e.fatalf("snapshot #%d of %s (taken at op %d) no longer shows the content at acquisition:%s", h.id, h.fam, h.takenAtOp, kvsim.Diff(h.content, got))
 		}
 	case 1: // point reads through FindReaders + Get
 		for j := 0; j < 3; j++ {
-			k := rapid.SampledFrom(universe).Draw(e.t, "probe")
+			k := e.probe(j)
 			readers, err := h.snap.FindReaders(k)
+			if e.violated() {
+				return
+			}
 			if err != nil {
 				e.fatalf("snapshot #%d FindReaders(%d): %v", h.id, k, err)
 			}
 			got := map[uint32]bool{}
 			for _, r := range readers {
-				h.readers[r.FileName()] = true
+				e.noteReader(h, r)
+			}
+			for _, r := range readers {
 				v, err := r.Get(k)
 				if err == table.ErrKeyNotExist {
 					continue
@@ -468,7 +675,7 @@ func (e *env) opReadSnapshot(i int, why string) {
 		}
 	case 2: // Load of a few keys
 		for j := 0; j < 3; j++ {
-			k := rapid.SampledFrom(universe).Draw(e.t, "probe")
+			k := e.probe(len(e.hint) + j)
 			got := map[uint32]bool{}
 			err := h.snap.Load(k, func(v []byte) error {
 				atoms, err := kvsim.Decode(v)
@@ -477,6 +684,9 @@ func (e *env) opReadSnapshot(i int, why string) {
 				}
 				return err
 			})
+			if e.violated() {
+				return
+			}
 			if err != nil {
 				e.fatalf("snapshot #%d Load(%d): %v", h.id, k, err)
 			}
@@ -493,6 +703,15 @@ func (e *env) opReadSnapshot(i int, why string) {
 	}
 	if h.compacts > 0 && h.cleanups > 0 {
 		e.classes["read-after-compaction-and-cleanup"]++
+	}
+}
+
+func (e *env) closeHeld(h *heldSnap, why string) {
+	for i := range e.held {
+		if e.held[i] == h {
+			e.opCloseSnapshot(i, why)
+			return
+		}
 	}
 }
 
@@ -521,6 +740,8 @@ func (e *env) opReopen() {
 }
 
 func (e *env) open() {
+	e.opening = true
+	defer func() { e.opening = false }()
 	s, err := kv.GetStoreManager().CreateStore(e.storePath, e.opt)
 	if err != nil {
 		e.fatalf("open store: %v", err)
@@ -535,31 +756,85 @@ func (e *env) open() {
 	}
 }
 
-func (e *env) checkCurrent() {
+// checkCurrent: a reader that starts now sees every commit that completed before.
+// mode 0: complete read (Load of every key + scan of every file); mode 1: point reads of every key
+// through FindReaders + Get (the reader of tsdb data files; unlike Load it gives its readers back at
+// Close, so the files stay evictable); mode 2: no reader (table files written since stay cold for the
+// readers of the history).
+func (e *env) checkCurrent(mode int) {
 	if e.violation != "" {
 		e.fatalf("%s", e.violation)
 	}
-	// a reader that starts now sees every commit that completed before
+	if mode == 2 {
+		return
+	}
+	if e.pointOnly {
+		mode = 1
+	}
+	e.openSpent = map[int64]int{}
 	for _, n := range e.famNames {
-		got, err := kvsim.ReadFamily(e.fams[n], universe)
+		var got kvsim.Content
+		var err error
+		if mode == 0 {
+			got, err = kvsim.ReadFamily(e.fams[n], universe)
+		} else {
+			got, err = e.pointReadFamily(n)
+		}
+		if e.violation != "" {
+			e.fatalf("%s", e.violation)
+		}
 		if err != nil {
 			e.fatalf("family %s: %v", n, err)
 		}
 		if !e.model[n].Equal(got) {
-			e.fatalf("a reader starting now does not see all completed commits of %s:%s", n, kvsim.Diff(e.model[n], got))
+			e.fatalf("a reader starting now (mode %d) does not see all completed commits of %s:%s", mode, n, kvsim.Diff(e.model[n], got))
 		}
 	}
 }
 
+func (e *env) pointReadFamily(fam string) (kvsim.Content, error) {
+	snap := e.fams[fam].GetSnapshot()
+	defer snap.Close()
+	got := kvsim.Content{}
+	for _, k := range universe {
+		readers, err := snap.FindReaders(k)
+		if err != nil {
+			return nil, fmt.Errorf("FindReaders(%d): %w", k, err)
+		}
+		for _, r := range readers {
+			v, err := r.Get(k)
+			if err == table.ErrKeyNotExist {
+				continue
+			}
+			if err != nil {
+				return nil, fmt.Errorf("Get(%d) on %s: %w", k, r.FileName(), err)
+			}
+			atoms, err := kvsim.Decode(v)
+			if err != nil {
+				return nil, fmt.Errorf("key %d in %s: %w", k, r.FileName(), err)
+			}
+			for _, a := range atoms {
+				got.AddAtom(k, a)
+			}
+		}
+	}
+	return got, nil
+}
+
 func TestSnapshotStability(t *testing.T) {
 	rapid.Check(t, func(t *rapid.T) {
+		// a read through a dead mapping becomes a failure of the case instead of killing the process
+		defer debug.SetPanicOnFault(debug.SetPanicOnFault(true))
 		kvsim.Register()
 		dir, err := os.MkdirTemp("", "c02-")
 		if err != nil {
 			t.Fatalf("harness: %v", err)
 		}
 		e := &env{t: t, dir: dir, storePath: filepath.Join(dir, "store"), fams: map[string]kv.Family{},
-			model: map[string]kvsim.Content{}, classes: map[string]int{}}
+			model: map[string]kvsim.Content{}, classes: map[string]int{}, seamVisits: map[string]int{}, openSpent: map[int64]int{}}
+		e.seamSeed = rapid.Uint64().Draw(t, "openSeamSeed")
+		e.pointOnly = rapid.IntRange(0, 2).Draw(t, "readerProfile") == 2
+		e.maxHeld = rapid.SampledFrom([]int{2, 3, 5}).Draw(t, "maxHeld")
 		e.opt = kv.StoreOption{Levels: rapid.IntRange(2, 3).Draw(t, "levels"), TTL: ltoml.Duration(time.Nanosecond)}
 		e.famOpt = kv.FamilyOption{
 			Merger:           kvsim.MergerName,
@@ -575,12 +850,14 @@ func TestSnapshotStability(t *testing.T) {
 		kv.VerifSetFSHook(e.fsHook)
 		table.VerifSetFSHook(e.tableHook)
 		version.VerifSetFSHook(e.manifestHook)
-		table.VerifSetUnmapHook(e.unmapHook)
+		table.VerifSetUnmapFileHook(e.unmapHook)
+		table.VerifSetOpenHook(e.openHook)
 		defer func() {
 			kv.VerifSetFSHook(nil)
 			table.VerifSetFSHook(nil)
 			version.VerifSetFSHook(nil)
-			table.VerifSetUnmapHook(nil)
+			table.VerifSetUnmapFileHook(nil)
+			table.VerifSetOpenHook(nil)
 			e.inJob = false
 			if e.pendingFl != nil {
 				e.pendingFl.Release()
@@ -625,31 +902,55 @@ func TestSnapshotStability(t *testing.T) {
 				}
 				e.opReopen()
 			},
-			"": func(t *rapid.T) { e.t = t; e.checkCurrent() },
+			"": func(t *rapid.T) {
+				e.t = t
+				e.checkCurrent(rapid.SampledFrom([]int{0, 1, 1, 2, 2, 2}).Draw(t, "checkCurrentMode"))
+			},
 		})
 		e.t = t
-		// final: every held snapshot is read once more in full, then closed
+		// final: the readers finish one after the other in a drawn order; each is read once more right before
+		// (in full, or with point reads in the point-reader profile); the TTL passes and the cache cleanup runs
+		// before the first and after each of them
+		e.opCacheCleanup()
 		for len(e.held) > 0 {
-			h := e.held[0]
-			got, err := kvsim.ReadSnapshot(h.snap, universe)
-			if err != nil {
-				e.fatalf("final read of snapshot #%d: %v", h.id, err)
+			h := e.held[rapid.IntRange(0, len(e.held)-1).Draw(t, "finalClose")]
+			if e.pointOnly {
+				e.readHeld(h, "final")
+			} else {
+				e.reading, e.openSpent = h, map[int64]int{}
+				got, err := kvsim.ReadSnapshot(h.snap, universe)
+				e.reading = nil
+				if e.violation != "" {
+					e.fatalf("final read of snapshot #%d: %s", h.id, e.violation)
+				}
+				if err != nil {
+					e.fatalf("final read of snapshot #%d: %v", h.id, err)
+				}
+				if !h.content.Equal(got) {
+					e.fatalf("final read: snapshot #%d of %s changed:%s", h.id, h.fam, kvsim.Diff(h.content, got))
+				}
+				h.reads++
 			}
-			if !h.content.Equal(got) {
-				e.fatalf("final read: snapshot #%d of %s changed:%s", h.id, h.fam, kvsim.Diff(h.content, got))
+			e.closeHeld(h, "final")
+			if len(e.held) > 0 {
+				e.opCacheCleanup()
 			}
-			h.reads++
-			e.opCloseSnapshot(0, "final")
 		}
 		if e.pendingFl != nil {
 			e.opFinishWriter()
 		}
-		e.checkCurrent()
+		e.checkCurrent(0)
+		if e.pointOnly {
+			e.classes["history-point-readers-only"]++
+		}
+		if e.raced > 0 {
+			e.classes["history-with-racing-first-readers"]++
+		}
 		for c, n := range e.classes {
 			ev.Class("TestSnapshotStability", c, n)
 		}
 		ev.Case("TestSnapshotStability", fmt.Sprintf("%v|%v|%v", e.opt.Levels, e.famOpt, e.ops), e.ntSnaps > 0, nil,
-			map[string]any{"levels": e.opt.Levels, "compactThreshold": e.famOpt.CompactThreshold, "maxFileSize": e.famOpt.MaxFileSize,
+			map[string]any{"levels": e.opt.Levels, "point_readers_only": e.pointOnly, "max_held": e.maxHeld, "compactThreshold": e.famOpt.CompactThreshold, "maxFileSize": e.famOpt.MaxFileSize,
 				"snapshots_held_across_compaction_and_cleanup": e.ntSnaps, "history": e.ops})
 	})
 }
@@ -825,4 +1126,189 @@ func TestConcurrentStress(t *testing.T) {
 			t.Fatalf("round %d (maxFileSize %d): %s", round, []uint32{0, 16, 64}[round%3], failure)
 		}
 	}
+	coldFirstReaders(t)
+}
+
+// ---- second phase of TestConcurrentStress: real goroutines on the reader-cache miss path -----------
+//
+// Per round the writer flushes a new table file (nobody has read it, so it is not in the reader cache) and
+// 2..4 readers are released together; each takes a snapshot and looks a key of the new file up (FindReaders,
+// every third round GetReader of the file). In every second round a cleaner runs the reader-cache cleanup
+// concurrently with them. Then some of the readers finish (pattern by round; at least one stays), the TTL
+// passes and the cache cleanup runs; every fourth round ends with a compaction (the inputs are evicted, the
+// output is another cold file). The open hook only perturbs the schedule (it yields while a cold file is
+// being mapped, so that the other first readers arrive meanwhile if the implementation lets them).
+// Oracle (holds under every interleaving, checked when the goroutines of the round have joined): a mapping
+// that has been unmapped - identified by the open file behind it - is not the mapping of a reader which a
+// still open snapshot handed out, and every such reader still returns the atom flushed under its key.
+func coldFirstReaders(t *testing.T) {
+	rounds := 60
+	if os.Getenv("VERIF_TIER") == "thorough" {
+		rounds = 1500
+	}
+	dir, err := os.MkdirTemp("", "c02r-")
+	if err != nil {
+		t.Fatal(err)
+	}
+	defer os.RemoveAll(dir)
+	path := filepath.Join(dir, "store")
+	s, err := kv.GetStoreManager().CreateStore(path, kv.StoreOption{Levels: 2, TTL: ltoml.Duration(time.Millisecond)})
+	if err != nil {
+		t.Fatal(err)
+	}
+	defer func() { _ = kv.GetStoreManager().CloseStore(path) }()
+	f, err := s.CreateFamily("f", kv.FamilyOption{Merger: kvsim.MergerName, CompactThreshold: 0, MaxFileSize: 1 << 20})
+	if err != nil {
+		t.Fatal(err)
+	}
+	var mu sync.Mutex
+	unmapped := map[*os.File]string{}
+	table.VerifSetUnmapFileHook(func(p string, fl *os.File) {
+		mu.Lock()
+		unmapped[fl] = filepath.Base(p)
+		mu.Unlock()
+	})
+	defer table.VerifSetUnmapFileHook(nil)
+	table.VerifSetOpenHook(func(op, _ string, before bool) {
+		if op == "tableMap" && before {
+			time.Sleep(200 * time.Microsecond)
+		}
+	})
+	defer table.VerifSetOpenHook(nil)
+
+	type first struct {
+		snap    version.Snapshot
+		readers []table.Reader
+		err     error
+	}
+	var coldRounds, overlapped, heldChecked int
+	for round := 0; round < rounds; round++ {
+		key, atom := uint32(round*16+3), uint32(round+1)
+		fl := f.NewFlusher()
+		for k := uint32(round * 16); k < uint32(round*16+16); k++ {
+			if err := fl.Add(k, kvsim.Encode(map[uint32]bool{atom: true})); err != nil {
+				t.Fatalf("round %d: flush add: %v", round, err)
+			}
+		}
+		err := fl.Commit()
+		fl.Release()
+		if err != nil {
+			t.Fatalf("round %d: flush commit: %v", round, err)
+		}
+		cur := f.GetSnapshot()
+		var newFile table.FileNumber
+		for _, fm := range cur.GetCurrent().GetAllFiles() {
+			if fm.GetFileNumber() > newFile {
+				newFile = fm.GetFileNumber()
+			}
+		}
+		cur.Close()
+
+		n := 2 + round%3
+		firsts := make([]first, n)
+		start := make(chan struct{})
+		var wg sync.WaitGroup
+		for i := 0; i < n; i++ {
+			wg.Add(1)
+			go func(i int) {
+				defer wg.Done()
+				<-start
+				snap := f.GetSnapshot()
+				firsts[i].snap = snap
+				if round%3 == 2 {
+					r, err := snap.GetReader(newFile)
+					firsts[i].err = err
+					if r != nil {
+						firsts[i].readers = []table.Reader{r}
+					}
+				} else {
+					firsts[i].readers, firsts[i].err = snap.FindReaders(key)
+				}
+			}(i)
+		}
+		if round%2 == 1 {
+			wg.Add(1)
+			go func() {
+				defer wg.Done()
+				<-start
+				for j := 0; j < 3; j++ {
+					kv.VerifCacheCleanup(s)
+					time.Sleep(100 * time.Microsecond)
+				}
+			}()
+		}
+		close(start)
+		wg.Wait()
+		coldRounds++
+		for i := range firsts {
+			if firsts[i].err != nil || len(firsts[i].readers) == 0 {
+				t.Fatalf("round %d reader %d: %d readers for key %d of the file flushed before, err=%v", round, i, len(firsts[i].readers), key, firsts[i].err)
+			}
+		}
+		// some readers finish; reader (round % n) always stays
+		open := map[int]bool{}
+		for i := range firsts {
+			if i == round%n || (round/n+i)%3 == 0 {
+				open[i] = true
+			} else {
+				firsts[i].snap.Close()
+			}
+		}
+		if len(open) > 1 {
+			overlapped++
+		}
+		time.Sleep(3 * time.Millisecond)
+		kv.VerifCacheCleanup(s)
+		mu.Lock()
+		for i := range firsts {
+			if !open[i] {
+				continue
+			}
+			for _, r := range firsts[i].readers {
+				if name, dead := unmapped[table.VerifReaderFile(r)]; dead {
+					mu.Unlock()
+					t.Fatalf("round %d: the mapping of table %s was unmapped while the snapshot of reader %d (one of %d readers released together on the freshly flushed file; %d of them still open) holds a reader of it",
+						round, name, i, n, len(open))
+				}
+			}
+		}
+		mu.Unlock()
+		for i := range firsts {
+			if !open[i] {
+				continue
+			}
+			got := map[uint32]bool{}
+			for _, r := range firsts[i].readers {
+				v, err := r.Get(key)
+				if err == table.ErrKeyNotExist {
+					continue
+				}
+				if err != nil {
+					t.Fatalf("round %d reader %d: Get(%d) on %s: %v", round, i, key, r.FileName(), err)
+				}
+				atoms, err := kvsim.Decode(v)
+				if err != nil {
+					t.Fatalf("round %d reader %d: key %d in %s: %v", round, i, key, r.FileName(), err)
+				}
+				for _, a := range atoms {
+					got[a] = true
+				}
+			}
+			if !got[atom] || len(got) != 1 {
+				t.Fatalf("round %d reader %d: key %d shows atoms %v, flushed atom %d", round, i, key, got, atom)
+			}
+			heldChecked++
+			firsts[i].snap.Close()
+		}
+		if round%4 == 3 {
+			if _, err := kv.VerifCompactSync(f, true); err != nil {
+				t.Fatalf("round %d: compaction: %v", round, err)
+			}
+		}
+	}
+	ev.Case("TestConcurrentStress", fmt.Sprintf("cold-first-readers-rounds-%d", rounds), overlapped > 0, nil,
+		map[string]any{"rounds": rounds, "rounds_with_several_readers_left_open": overlapped, "held_readers_checked_after_cleanup": heldChecked})
+	ev.Class("TestConcurrentStress", "cold-round-first-readers-released-together-on-cold-file", coldRounds)
+	ev.Class("TestConcurrentStress", "cold-round-with-concurrent-cache-cleanup", rounds/2)
+	ev.Class("TestConcurrentStress", "cold-held-reader-checked-after-ttl-cleanup", heldChecked)
 }
